@@ -8,7 +8,7 @@ import gen_prog
 ID = "C18"
 PROP_FILE = "props/C18.v"
 COQ_TARGETS = ["props/C18.v", "model/BookHist.v"]
-THEOREMS = ["C18_contains", "C18_parent", "C18_parent_exact", "C18_outer_exact", "C18_node", "C18_tables", "C18_history", "C18_remove_after_add_refuted"]
+THEOREMS = ["C18_history_own_keys", "C18_contains", "C18_parent", "C18_parent_exact", "C18_outer_exact", "C18_node", "C18_tables", "C18_history", "C18_remove_after_add_refuted"]
 TRUSTED_BASE = [
     "Coq 8.16.1 kernel, vm_compute for the in-coqc correspondence",
     "model/Book.v: hand transcription of BookkeepingVisitor.generic_visit as the ordered list of table writes, tied by K-book",
@@ -183,9 +183,14 @@ def hist_oracle(case, im):
     return None
 
 
+def mid_code(j, r):
+    """the module id in the numbering of the model's node ids (j * 100000 + index) when it is the id of one of the bookkeeper's own nodes"""
+    return j * 100000 + r["mid_node"] if r.get("mid_node") is not None else 90000000 + r["mid"]
+
+
 def hist_cases_file(cases, impl):
     L = ["From Coq Require Import List NArith Bool.", "Import ListNotations.", "From PyccoloV Require Import gen.BookOrder model.BookHist.",
-         "Definition one (gc : bool) (ops : list op) := let s := BookHist.run book_remove_first gc ops st0 in",
+         "Definition one (gc : bool) (ops : list op) := let s := BookHist.run book_remove_first book_remove_old_mid gc ops st0 in",
          "  map (fun o => let b := o_bk o in (length (filter (gn s) (b_ids b)), map (fun li => gl s (b_mid b) (fst li)) (b_lines b), map b_mid (valid s (o_path o)))) ops."]
     for c, im in zip(cases, impl):
         ops = []
@@ -193,7 +198,7 @@ def hist_cases_file(cases, impl):
             ids = "; ".join("%d" % (j * 100000 + i) for i in range(r["n"]))
             lines = "; ".join("(%d, %d)" % (l, want[0] * 100000 + want[1]) for l, want, _, _ in r["lines"])
             ops.append("{| o_path := %d; o_kind := %s; o_bk := {| b_mid := %d; b_ids := [%s]; b_lines := [%s] |} |}"
-                       % (op["path"], "KModule" if op["kind"] == "module" else "KFunction", r["mid"], ids, lines))
+                       % (op["path"], "KModule" if op["kind"] == "module" else "KFunction", mid_code(j, r), ids, lines))
         L.append("Eval vm_compute in one %s [%s]%%N." % ("true" if c.get("gc", True) else "false", "; ".join(ops)))
     return "\n".join(L) + "\n"
 
@@ -261,7 +266,7 @@ def run(ctx, model_ok):
             hfail += 1
             f.update({"case": c, "signature": "unlisted", "kind_": "oracle", "harness": "c18_hist.py"})
             failures.append(f)
-    hvalidated, hm, not_fresh = 0, [], 0
+    hvalidated, hm, not_fresh, foreign_keys = 0, [], 0, 0
     if model_ok:
         good = [(c, im) for c, im in zip(hcases, himpl) if "ops" in im]
         shards = [good[i:i + 40] for i in range(0, len(good), 40)]
@@ -276,7 +281,9 @@ def run(ctx, model_ok):
                 rows = lib.parse_coq_list(v)
                 if not all(r["fresh"] for r in im["ops"]):
                     not_fresh += 1
-                mids_valid = sorted(im["ops"][j]["mid"] for j in valid_ops(c))
+                mids_valid = sorted(mid_code(j, im["ops"][j]) for j in valid_ops(c))
+                if not all(r.get("mid_node") is not None for r in im["ops"]):
+                    foreign_keys += 1
                 mvalid = sorted({m for (_, _, vl) in rows for m in vl})
                 bad = None
                 for j, ((present, lines, _), r) in enumerate(zip(rows, im["ops"])):
@@ -294,6 +301,9 @@ def run(ctx, model_ok):
         if hm:
             mism += hm
             ctx.tie_broken("correspondence", "model/BookHist.v and the real tables disagree on %d of %d histories" % (len(hm), len(hcases)), json.dumps(hm[0])[:3000])
+        if foreign_keys:
+            ctx.tie_broken("correspondence", "%d real histories have a line table keyed by something that is not one of the bookkeeper's own nodes "
+                           "(the hypothesis of C18_history_own_keys; gen/BookOrder.v book_mid_is_registered_node)" % foreign_keys, "")
         if not_fresh:
             ctx.tie_broken("correspondence", "%d real histories do not meet the freshness hypothesis of C18_history (new node ids already in the tables)" % not_fresh, "")
     validated += hvalidated
